@@ -53,6 +53,10 @@ def o_coq(o) -> str:
     return f"(OBool {gbool(o[1])} {glist(o[2], o_coq)})"
 
 
+def gval(v) -> str:
+    return f"(VB {gbool(v)})" if isinstance(v, bool) else f"(VI {gz(v)})"
+
+
 def r_coq(r) -> str:
     if r[0] == "const":
         return f"(RConst {gbool(r[1])})"
@@ -61,13 +65,28 @@ def r_coq(r) -> str:
     return "RNone"
 
 
-def impl_bound(mods, isand, vs):
-    """Run the real generator on `y = <formula>` and read what it yields for the top BoolOp."""
+def bound_source(isand, vs, ctx) -> str:
+    """ctx = True: only the truth value of the formula is used (an `if` test); False: the value is used"""
+    f = o_text(("bool", isand, vs), top=True)
+    return f"if {f}:\n    pass\n" if ctx else f"y = {f}\n"
+
+
+def top_expr(tree):
+    s = tree.body[0]
+    return s.test if isinstance(s, ast.If) else s.value
+
+
+def o_has_var(o) -> bool:
+    return o[0] == "var" or (o[0] == "not" and o_has_var(o[1])) or (o[0] == "bool" and any(o_has_var(v) for v in o[2]))
+
+
+def impl_bound(mods, isand, vs, ctx=False):
+    """Run the real generator on `y = <formula>` / `if <formula>: pass` and read what it yields for the top BoolOp."""
     core, sm = mods["core"], mods["symbolic_math"]
-    source = "y = " + o_text(("bool", isand, vs), top=True) + "\n"
+    source = bound_source(isand, vs, ctx)
     with common.quiet():
         root = core.parse(source)
-        top = root.body[0].value
+        top = top_expr(root)
         assert isinstance(top, ast.BoolOp) and len(top.values) == len(vs), source
         res = ("none",)
         for item in sm.simplify_boolean_expressions._fix_func(source):
@@ -85,12 +104,15 @@ def impl_bound(mods, isand, vs):
     return source, res
 
 
+PVALS = (0, 3)      # values of the bare names p0..p2: integers (the property's quantifier), falsy and truthy
+
+
 def eval_all(expr_src: str, nvars=2):
-    """Value of an expression for every valuation of x,y,z in the box and p0..p2 in {False, True}."""
+    """Value of an expression for every valuation of x,y in the box and p0..p2 in PVALS."""
     code = compile(expr_src, "<f>", "eval")
     out = []
     for x, y in itertools.product(BOX, repeat=2):
-        for p in itertools.product([False, True], repeat=3):
+        for p in itertools.product(PVALS, repeat=3):
             env = {"x": x, "y": y, "z": 0, "p0": p[0], "p1": p[1], "p2": p[2]}
             try:
                 out.append(eval(code, {"__builtins__": {}}, env))
@@ -99,19 +121,28 @@ def eval_all(expr_src: str, nvars=2):
     return out
 
 
+def expr_text(program: str) -> str:
+    return ast.unparse(top_expr(ast.parse(program)))
+
+
 def property_fails(mods, source: str, rule) -> dict | None:
-    """The property's own oracle on the real rule: same value before/after for every valuation."""
+    """The property's own oracle on the real rule: same VALUE before/after for every valuation where the
+    value is used (`y = ...`), same truth value where only that is used (`if ...:`)."""
     with common.quiet():
         new = rule(source)
     if new == source:
         return None
-    before = eval_all(source[4:].strip())
+    truth_only = source.startswith("if ")
+    before = eval_all(expr_text(source))
     try:
-        after = eval_all(new[4:].strip())
+        after = eval_all(expr_text(new))
     except SyntaxError:
         return {"source": source, "output": new, "problem": "output does not parse"}
     for b, a in zip(before, after):
-        if b != a or type(b) is not type(a):
+        if truth_only:
+            if isinstance(b, tuple) or isinstance(a, tuple) or bool(b) != bool(a):
+                return {"source": source, "output": new, "problem": f"truth value differs: {b!r} vs {a!r}"}
+        elif b != a or type(b) is not type(a):
             return {"source": source, "output": new, "problem": f"value differs: {b!r} vs {a!r}"}
     return None
 
@@ -716,6 +747,670 @@ def check_range(run, mods, rnd, wd, hist, distinct):
     return files, shards, failures, stats
 
 
+# ---- simplify_boolean_expressions_symmath: translation validation ---------------------------------
+# formula terms: ("name", v) | ("cmp", v, op, c, flipped) | ("opq", i) | ("const", b) | ("not", f)
+#                | ("and", [f..]) | ("or", [f..])         (v indexes SVARS, op is a key of BOP_TXT)
+SVARS = ["x", "y", "z"]
+SBOX = range(-3, 6)          # strictly contains every constant used below ([-1, 3])
+
+
+def sf_text(f, top=True) -> str:
+    k = f[0]
+    if k == "name":
+        return SVARS[f[1]]
+    if k == "cmp":
+        _, v, op, c, fl = f
+        return f"{c} {BOP_TXT[op]} {SVARS[v]}" if fl else f"{SVARS[v]} {BOP_TXT[op]} {c}"
+    if k == "opq":
+        return f"o{f[1]}()"
+    if k == "const":
+        return "True" if f[1] else "False"
+    if k == "not":
+        return f"not {sf_text(f[1], False)}"
+    s = f" {k} ".join(sf_text(v, False) for v in f[1])
+    return s if top else f"({s})"
+
+
+def sf_coq(f) -> str:
+    k = f[0]
+    if k == "name":
+        return f"(PAtom (AName {f[1]}))"
+    if k == "cmp":
+        return f"(PAtom (ACmp {f[1]} {f[2]} {gz(f[3])} {gbool(f[4])}))"
+    if k == "opq":
+        return f"(PAtom (AOpq {f[1]}))"
+    if k == "const":
+        return f"(PConst {gbool(f[1])})"
+    if k == "not":
+        return f"(PNot {sf_coq(f[1])})"
+    # `a and b and c` is `a and (b and c)`: same value, same evaluation order
+    con = "PAnd" if k == "and" else "POr"
+    vs = f[1]
+    out = sf_coq(vs[-1])
+    for v in reversed(vs[:-1]):
+        out = f"({con} {sf_coq(v)} {out})"
+    return out
+
+
+_AST_BOP = {ast.Eq: "BEq", ast.NotEq: "BNe", ast.Gt: "BGt", ast.Lt: "BLt", ast.GtE: "BGe", ast.LtE: "BLe"}
+
+
+def _int_const(n):
+    if isinstance(n, ast.Constant) and type(n.value) is int:
+        return n.value
+    if isinstance(n, ast.UnaryOp) and isinstance(n.op, ast.USub) and isinstance(n.operand, ast.Constant) \
+            and type(n.operand.value) is int:
+        return -n.operand.value
+    return None
+
+
+def sf_of_ast(n) -> tuple:
+    """AST of a condition (input node or the rule's replacement) -> formula term; ValueError outside the language"""
+    if isinstance(n, ast.BoolOp):
+        return ("and" if isinstance(n.op, ast.And) else "or", [sf_of_ast(v) for v in n.values])
+    if isinstance(n, ast.UnaryOp) and isinstance(n.op, ast.Not):
+        return ("not", sf_of_ast(n.operand))
+    if isinstance(n, ast.Constant) and isinstance(n.value, bool):
+        return ("const", n.value)
+    if isinstance(n, ast.Name) and n.id in SVARS:
+        return ("name", SVARS.index(n.id))
+    if isinstance(n, ast.Call) and isinstance(n.func, ast.Name) and re.fullmatch(r"o\d", n.func.id) and not n.args:
+        return ("opq", int(n.func.id[1:]))
+    if isinstance(n, ast.Compare) and len(n.ops) == 1 and type(n.ops[0]) in _AST_BOP:
+        l, r = n.left, n.comparators[0]
+        if isinstance(l, ast.Name) and l.id in SVARS and _int_const(r) is not None:
+            return ("cmp", SVARS.index(l.id), _AST_BOP[type(n.ops[0])], _int_const(r), False)
+        if isinstance(r, ast.Name) and r.id in SVARS and _int_const(l) is not None:
+            return ("cmp", SVARS.index(r.id), _AST_BOP[type(n.ops[0])], _int_const(l), True)
+    raise ValueError("outside the formula language: " + ast.dump(n))
+
+
+def truth_tested(root) -> set:
+    """ids of the expression nodes of which only the truth value can be observed (the harness's own reading of
+    Python, independent of symbolic_math._truth_tested_nodes): tests of if / while / conditional expressions /
+    assert / comprehension filters, operands of `not`, unused expression statements, and operands of and/or in
+    such a position"""
+    work = []
+    for n in ast.walk(root):
+        if isinstance(n, (ast.If, ast.While, ast.IfExp, ast.Assert)):
+            work.append(n.test)
+        elif isinstance(n, ast.comprehension):
+            work += n.ifs
+        elif isinstance(n, ast.UnaryOp) and isinstance(n.op, ast.Not):
+            work.append(n.operand)
+        elif isinstance(n, ast.Expr):
+            work.append(n.value)
+    out = set()
+    while work:
+        n = work.pop()
+        out.add(id(n))
+        if isinstance(n, ast.BoolOp):
+            work += n.values
+    return out
+
+
+SYM_SHAPES = {          # how the formula is embedded; True = only its truth value is used
+    "assign": ("y = {f}\n", False), "if": ("if {f}:\n    pass\n", True), "ifexp": ("y = 1 if {f} else 2\n", True),
+    "not": ("y = not ({f})\n", True), "call": ("print({f})\n", False), "return": ("def g(x, y, z):\n    return {f}\n", False),
+    "while": ("while {f}:\n    break\n", True), "comp": ("y = [1 for _ in (1,) if {f}]\n", True),
+    "expr": ("{f}\n", True), "nested": ("y = ({f}) or x\n", False), "assert": ("assert {f}\n", True),
+    "ifexp_body": ("y = ({f}) if z else 0\n", False), "subscript": ("y = t[{f}]\n", False),
+}
+
+
+def sf_vars_used(f, acc=None):
+    """(variables compared with constants, variables used as bare operands, opaque calls)"""
+    acc = acc if acc is not None else (set(), set(), set())
+    if f[0] == "cmp":
+        acc[0].add(f[1])
+    elif f[0] == "name":
+        acc[1].add(f[1])
+    elif f[0] == "opq":
+        acc[2].add(f[1])
+    elif f[0] == "not":
+        sf_vars_used(f[1], acc)
+    elif f[0] in ("and", "or"):
+        for v in f[1]:
+            sf_vars_used(v, acc)
+    return acc
+
+
+NAME_BOX = [(0, 2), (0, 3), (0, 5)]     # a variable that is only used as a bare operand: zero / a value of its own
+
+
+def sym_pair_fails(f, g, ctx) -> str | None:
+    """the property's oracle on one (input, output) pair: CPython's value (or truth value where only that is
+    used) of both texts under every integer valuation of the box and every truth value of the opaque calls"""
+    a, b = compile(sf_text(f), "<in>", "eval"), compile(sf_text(g), "<out>", "eval")
+    cs, ns, os_ = set(), set(), set()
+    for h in (f, g):
+        u = sf_vars_used(h)
+        cs |= u[0]; ns |= u[1]; os_ |= u[2]
+    boxes = [SBOX if i in cs else NAME_BOX[i] if i in ns else (0,) for i in range(3)]
+    obox = [(False, True) if i in os_ else (False,) for i in range(2)]
+    for x, y, z in itertools.product(*boxes):
+        for o in itertools.product(*obox):
+            env = {"x": x, "y": y, "z": z, "o0": (lambda o=o: o[0]), "o1": (lambda o=o: o[1])}
+            va, vb = eval(a, {"__builtins__": {}}, env), eval(b, {"__builtins__": {}}, dict(env))
+            if ctx:
+                if bool(va) != bool(vb):
+                    return f"x={x} y={y} z={z} o0()={o[0]} o1()={o[1]}: truth value {bool(va)} vs {bool(vb)}"
+            elif va != vb or type(va) is not type(vb):
+                return f"x={x} y={y} z={z} o0()={o[0]} o1()={o[1]}: value {va!r} vs {vb!r}"
+    return None
+
+
+def sym_leaf_forms(n, atoms):
+    """all binary and/or trees with n leaves over the atoms, `not` on leaves only"""
+    if n == 1:
+        for a in atoms:
+            yield a
+            yield ("not", a)
+        return
+    for k in range(1, n):
+        for l in sym_leaf_forms(k, atoms):
+            for r in sym_leaf_forms(n - k, atoms):
+                yield ("and", [l, r])
+                yield ("or", [l, r])
+
+
+SYM_POOLS = {
+    "names": [("name", 0), ("name", 1), ("name", 2)],
+    "cmps": [("cmp", 0, "BGt", 1, False), ("cmp", 0, "BLe", 1, False), ("cmp", 0, "BEq", 2, False)],
+    "mixed": [("name", 0), ("cmp", 0, "BGt", 0, False), ("opq", 0)],
+}
+
+
+def sym_atom(rnd):
+    k = rnd.random()
+    if k < 0.35:
+        return ("name", rnd.randrange(3))
+    if k < 0.8:
+        return ("cmp", rnd.choice([0, 0, 1]), rnd.choice(BOPS), rnd.choice([-1, 0, 1, 2, 3]), rnd.random() < 0.2)
+    if k < 0.93:
+        return ("opq", rnd.randrange(2))
+    return ("const", rnd.random() < 0.5)
+
+
+def sym_rand(rnd, palette, depth=0):
+    """a random formula over a palette of at most 5 atoms (sympy's minimisation is exponential in the atoms)"""
+    r = rnd.random()
+    if depth >= 3 or r < 0.42:
+        return rnd.choice(palette)
+    if r < 0.55:
+        return ("not", sym_rand(rnd, palette, depth + 1))
+    return (rnd.choice(["and", "or"]), [sym_rand(rnd, palette, depth + 1) for _ in range(rnd.randint(2, 4))])
+
+
+def sym_cases(tier, rnd):
+    """(formula, shape) list: exhaustive small scope first (seed independent), then seeded random"""
+    cases = []
+    stride4 = 48 if tier == "quick" else 1
+    k = 0
+    for pool, atoms in SYM_POOLS.items():
+        shapes = {"names": ["if", "if", "not", "assign"], "cmps": ["assign", "if", "return", "ifexp"],
+                  "mixed": ["if", "assign", "comp", "call"]}[pool]
+        for n in (2, 3, 4):
+            for f in sym_leaf_forms(n, atoms):
+                k += 1
+                if n < 4 or k % stride4 == 0:
+                    cases.append((f, shapes[k % len(shapes)]))
+    n_exh = len(cases)
+    shapes = sorted(SYM_SHAPES)
+    for _ in range(600 if tier == "quick" else 20000):
+        palette = [sym_atom(rnd) for _ in range(rnd.randint(2, 5))]
+        f = sym_rand(rnd, palette)
+        while f[0] not in ("and", "or", "not"):
+            f = sym_rand(rnd, palette)
+        cases.append((f, rnd.choice(shapes)))
+    # n-ary and duplicated-operand forms sympy collapses
+    for a, b in itertools.permutations(SYM_POOLS["names"] + SYM_POOLS["cmps"][:2], 2):
+        cases.append((("and", [a, b, a]), "if"))
+        cases.append((("or", [a, ("and", [a, b]), b]), "assign"))
+        cases.append((("or", [("and", [a, b]), ("and", [a, ("not", b)])]), "ifexp"))
+        cases.append((("or", [("and", [a, b]), ("and", [a, ("not", b)])]), "assign"))
+    return cases, n_exh
+
+
+_SYM_MODS = None
+
+
+def _sym_eval(jobs):
+    """worker: the real rule on every case; every (node, replacement) it yields -> (input term, output term,
+    truth-context flag by the harness's own reading) + the CPython oracle on the pair"""
+    mods = _SYM_MODS
+    core, sm = mods["core"], mods["symbolic_math"]
+    out, memo = [], {}
+    for f, shape in jobs:
+        tmpl, _ = SYM_SHAPES[shape]
+        source = tmpl.format(f=sf_text(f))
+        pairs, problems = [], []
+        try:
+            with common.quiet():
+                root = core.parse(source)
+                tt = truth_tested(root)
+                ys = [(it[0], it[1]) for it in sm.simplify_boolean_expressions_symmath._fix_func(source)]
+            for node, repl in ys:
+                try:
+                    fi, fo = sf_of_ast(node), sf_of_ast(repl)
+                except ValueError as e:
+                    problems.append(f"{e}")
+                    continue
+                ctx = id(node) in tt
+                key = (sf_text(fi), sf_text(fo), ctx)
+                if key not in memo:
+                    memo[key] = sym_pair_fails(fi, fo, ctx)
+                pairs.append((fi, fo, ctx, memo[key]))
+        except Exception as e:  # noqa
+            problems.append(f"crash {type(e).__name__}: {e}")
+        out.append((f, shape, source, pairs, problems))
+    return out
+
+
+def check_symmath(run, mods, rnd, wd, hist, distinct):
+    """every output of the real sympy rule is validated by the verified checkers of BoolEquivModel.v"""
+    global _SYM_MODS
+    _SYM_MODS = mods
+    cases, n_exh = sym_cases(run.tier, rnd)
+    nw = 4 if run.tier == "quick" else 8
+    size = max(100, len(cases) // (nw * 6))
+    import multiprocessing
+    with multiprocessing.get_context("fork").Pool(nw) as pool:
+        parts = pool.map(_sym_eval, [cases[k:k + size] for k in range(0, len(cases), size)])
+    pairs, failures, seen, n_yields = [], [], set(), 0
+    for part in parts:
+        for f, shape, source, ps_, problems in part:
+            hist["symmath:" + ("yield" if ps_ else "none")] += 1
+            for pr in problems:
+                failures.append(("simplify_boolean_expressions_symmath", {"source": source, "output": None, "problem": pr}))
+            for fi, fo, ctx, pyfail in ps_:
+                n_yields += 1
+                key = (sf_text(fi), sf_text(fo), ctx)
+                if key in seen:
+                    continue
+                seen.add(key)
+                pairs.append((fi, fo, ctx, pyfail, source))
+                distinct.add("sym:" + " => ".join(key[:2]) + (" [truth]" if ctx else " [value]"))
+                hist["symmath:pair:" + ("truth-ctx" if ctx else "value-ctx")] += 1
+    files, shards = [], []
+    SH = 2500
+    for k in range(0, len(pairs), SH):
+        shard = pairs[k:k + SH]
+        body = ";\n ".join(f"({sf_coq(fi)}, {sf_coq(fo)}, {gbool(ctx)})" for (fi, fo, ctx, _, _) in shard)
+        p = wd / f"symmath_{k // SH}.v"
+        p.write_text("From Coq Require Import List ZArith.\nImport ListNotations.\nOpen Scope Z_scope.\n"
+                     "Require Import Pyrefact.Base Pyrefact.BoundModel Pyrefact.BoolEquivModel.\n"
+                     f"Definition cases : list (form * form * bool) := [\n {body}\n].\n"
+                     "Eval vm_compute in (bad_idx sym_case_ok cases).\n")
+        files.append(p); shards.append([("symmath",) + it for it in shard])
+    # reference semantics veval vs CPython: value of a sample of the formulas at a few valuations
+    sem = []
+    for f, _ in cases[5::9][:800]:
+        code = compile(sf_text(f), "<f>", "eval")
+        for (xs, o) in (((1, 0, 2), (True, False)), ((0, 3, -1), (False, True)), ((2, 2, 0), (True, True))):
+            env = {"x": xs[0], "y": xs[1], "z": xs[2], "o0": (lambda o=o: o[0]), "o1": (lambda o=o: o[1])}
+            sem.append((f, xs, [i for i in range(2) if o[i]], eval(code, {"__builtins__": {}}, env)))
+    for k in range(0, len(sem), 800):
+        shard = sem[k:k + 800]
+        body = ";\n ".join(f"({sf_coq(f)}, [(0%nat, {gz(xs[0])}); (1%nat, {gz(xs[1])}); (2%nat, {gz(xs[2])})], "
+                           f"{glist(s, lambda i: str(i) + chr(37) + chr(110)+chr(97)+chr(116))}, {gval(v)})" for (f, xs, s, v) in shard)
+        p = wd / f"veval_{k // 800}.v"
+        p.write_text("From Coq Require Import List ZArith.\nImport ListNotations.\nOpen Scope Z_scope.\n"
+                     "Require Import Pyrefact.Base Pyrefact.BoundModel Pyrefact.BoolEquivModel.\n"
+                     f"Definition cases : list (form * list (nat * Z) * list nat * val) := [\n {body}\n].\n"
+                     "Eval vm_compute in (bad_idx veval_case_ok cases).\n")
+        files.append(p); shards.append([("veval", sf_text(f), xs, s, repr(v)) for (f, xs, s, v) in shard])
+    # the CPython oracle on every pair (independent of the checker), and the rule's text result on a shard
+    for fi, fo, ctx, pyfail, source in pairs:
+        if pyfail:
+            failures.append(("simplify_boolean_expressions_symmath",
+                             {"source": source, "input": sf_text(fi), "output": sf_text(fo), "truth_context": ctx,
+                              "problem": pyfail}))
+    stats = {"cases": len(cases), "exhaustive_small_scope": n_exh, "yields": n_yields, "distinct_pairs_validated": len(pairs),
+             "veval_cases": len(sem), "samples": [cases[3][0] and SYM_SHAPES[cases[3][1]][0].format(f=sf_text(cases[3][0])),
+                                                  SYM_SHAPES[cases[-1][1]][0].format(f=sf_text(cases[-1][0]))]}
+    return files, shards, failures, stats
+
+
+# ---- simplify_math_iterators: sums handed to sympy (translation validation) ---------------------------
+# a case: {"elt": text, "gens": [(target, kind, [arg texts])], "form": "list" | "gen"}; kind: range | tuple | list | set
+SM_BOX = (-3, 6)
+
+
+def sm_source(case) -> str:
+    gens = []
+    for v, kind, args in case["gens"]:
+        it = {"range": "range({})", "tuple": "({},)", "list": "[{}]", "set": "{{{}}}"}[kind].format(", ".join(args))
+        gens.append(f"for {v} in {it}")
+    body = f"{case['elt']} {' '.join(gens)}"
+    return f"y = sum([{body}])\n" if case["form"] == "list" else f"y = sum({body})\n"
+
+
+def ax_of_ast(n, vm):
+    """Python arithmetic -> aexp term; vm: name -> variable index (extended on the fly)"""
+    if isinstance(n, ast.Constant) and type(n.value) is int:
+        return ("num", n.value)
+    if isinstance(n, ast.Name):
+        return ("var", vm.setdefault(n.id, len(vm)))
+    if isinstance(n, ast.UnaryOp) and isinstance(n.op, ast.USub):
+        return ("neg", ax_of_ast(n.operand, vm))
+    if isinstance(n, ast.UnaryOp) and isinstance(n.op, ast.UAdd):
+        return ax_of_ast(n.operand, vm)
+    if isinstance(n, ast.BinOp):
+        k = {ast.Add: "add", ast.Sub: "sub", ast.Mult: "mul", ast.Div: "div"}.get(type(n.op))
+        if k:
+            return (k, ax_of_ast(n.left, vm), ax_of_ast(n.right, vm))
+        if isinstance(n.op, ast.Pow) and isinstance(n.right, ast.Constant) and type(n.right.value) is int \
+                and 0 <= n.right.value <= 12:
+            return ("pow", ax_of_ast(n.left, vm), n.right.value)
+    raise ValueError("outside the arithmetic language: " + ast.dump(n))
+
+
+def ax_text(s, vm):
+    return ax_of_ast(ast.parse(s, mode="eval").body, vm)
+
+
+def ax_coq(a) -> str:
+    k = a[0]
+    if k == "num":
+        return f"(ANum {gz(a[1])})"
+    if k == "var":
+        return f"(AVar {a[1]})"
+    if k == "neg":
+        return f"(ANeg {ax_coq(a[1])})"
+    if k == "pow":
+        return f"(APow {ax_coq(a[1])} {a[2]})"
+    return f"({ {'add': 'AAdd', 'sub': 'ASub', 'mul': 'AMul', 'div': 'ADiv'}[k] } {ax_coq(a[1])} {ax_coq(a[2])})"
+
+
+def ax_vars(a, acc=None):
+    acc = set() if acc is None else acc
+    if a[0] == "var":
+        acc.add(a[1])
+    elif a[0] != "num":
+        for x in a[1:]:
+            if isinstance(x, tuple):
+                ax_vars(x, acc)
+    return acc
+
+
+def sm_terms(case):
+    """(gens as terms, elt term, vm, free variable indices); ValueError outside the language"""
+    vm = {}
+    gens = []
+    for v, kind, args in case["gens"]:
+        # bounds are evaluated before the target is bound: translate them first
+        if kind == "range":
+            a = [ax_text(x, vm) for x in args]
+            lo, hi, st = (("num", 0), a[0], ("num", 1)) if len(a) == 1 else (a[0], a[1], ("num", 1)) if len(a) == 2 \
+                else tuple(a)
+            gens.append(("range", vm.setdefault(v, len(vm)), lo, hi, st))
+        else:
+            es = [ax_text(x, vm) for x in args]
+            gens.append(("list", vm.setdefault(v, len(vm)), es, kind == "set"))
+    elt = ax_text(case["elt"], vm)
+    targets = {g[1] for g in gens}
+    return gens, elt, vm, sorted(set(vm.values()) - targets)
+
+
+def sm_gen_coq(g) -> str:
+    if g[0] == "range":
+        return f"(GRange {g[1]} {ax_coq(g[2])} {ax_coq(g[3])} {ax_coq(g[4])})"
+    return f"(GList {g[1]} {glist(g[2], ax_coq)} {gbool(g[3])})"
+
+
+class _Frac(ast.NodeTransformer):
+    """evaluate an emitted closed form exactly: every int literal becomes a Fraction"""
+    def visit_Constant(self, n):
+        if type(n.value) is int:
+            return ast.Call(func=ast.Name(id="_F", ctx=ast.Load()), args=[n], keywords=[])
+        return n
+
+
+def sm_exact(expr_text: str, env):
+    import fractions
+    tree = ast.fix_missing_locations(_Frac().visit(ast.parse(expr_text, mode="eval")))
+    return eval(compile(tree, "<out>", "eval"), {"_F": fractions.Fraction, "__builtins__": {}}, dict(env))
+
+
+def sm_reversed(case, env) -> bool:
+    """does some range that is iterated have its bounds the wrong way round under env (F17-1 / F17-12)?"""
+    def go(k, env):
+        if k == len(case["gens"]):
+            return False
+        v, kind, args = case["gens"][k]
+        vals = [eval(a, {"__builtins__": {}}, dict(env)) for a in args]
+        if kind == "range":
+            lo, hi, st = (0, vals[0], 1) if len(vals) == 1 else (vals[0], vals[1], 1) if len(vals) == 2 else vals
+            if (st > 0 and hi < lo) or (st < 0 and hi > lo):
+                return True
+            it = range(lo, hi, st)
+        else:
+            it = vals
+        return any(go(k + 1, {**env, v: z}) for z in it)
+    return go(0, env)
+
+
+def sm_oracle(case, source, new, fv_names):
+    """CPython before/after on the box: (None | problem text, failing env, reversed?)"""
+    out_text = new[len("y = "):].strip()
+    lo, hi = SM_BOX if len(fv_names) <= 2 else (-2, 3)
+    first_rev = None
+    for vals in itertools.product(range(lo, hi + 1), repeat=len(fv_names)):
+        env = dict(zip(fv_names, vals))
+        try:
+            before = eval(source[len("y = "):], {"sum": sum, "range": range}, dict(env))
+        except Exception:  # noqa   (the original raises: nothing to preserve)
+            continue
+        try:
+            after = sm_exact(out_text, env)
+        except Exception as e:  # noqa
+            return f"the output raises {type(e).__name__}: {e}", env, False
+        if after != before:
+            rev = sm_reversed(case, env)
+            if not rev:
+                return f"value {before!r} became {after!r}", env, False
+            first_rev = first_rev or (f"value {before!r} became {after!r}", env, True)
+    return first_rev or (None, None, False)
+
+
+SM_ELTS = ["i", "i * i", "i ** 2 + 3 * i - 2", "2 * i + 1", "i ** 3", "1", "-i", "x * i", "i * (i - 1)", "(i + 1) ** 2",
+           "i ** 4 - i"]
+SM_SYM_RANGES = [["n"], ["m", "n"], ["2", "n"], ["n", "7"], ["n + 1"], ["-n", "n"], ["m", "n", "1"], ["0", "n", "2"],
+                 ["n", "2 * n"], ["m + 1", "n"], ["1", "n"]]
+
+
+def sm_cases(tier, rnd):
+    lit = [[str(b)] for b in range(-2, 6)] + [[str(a), str(b)] for a in range(-2, 5) for b in range(-2, 6)]
+    lit += [[str(a), str(b), str(s)] for a in (-1, 0, 2) for b in (0, 3, 6, 7) for s in (2, 3, -1, -2)]
+    cases = []
+    for k, r in enumerate(lit):
+        elts = SM_ELTS if tier != "quick" else [SM_ELTS[k % len(SM_ELTS)]]
+        for e in dict.fromkeys(elts):
+            cases.append({"elt": e, "gens": [("i", "range", r)], "form": ("list", "gen")[k % 2]})
+    for k, r in enumerate(SM_SYM_RANGES):
+        for j, e in enumerate(SM_ELTS):
+            if tier != "quick" or (j + k) % 2 == 0:
+                cases.append({"elt": e, "gens": [("i", "range", r)], "form": "list"})
+    nested = [
+        ("i * j", [("i", "range", ["3"]), ("j", "range", ["4"])]), ("i * j", [("i", "range", ["n"]), ("j", "range", ["i"])]),
+        ("i + j", [("i", "range", ["4"]), ("j", "range", ["i", "5"])]), ("1", [("i", "range", ["n"]), ("j", "range", ["i", "n"])]),
+        ("i", [("i", "range", ["3"]), ("i", "range", ["2"])]), ("i * j", [("i", "range", ["4"]), ("j", "range", ["i"])]),
+        ("j", [("i", "range", ["3"]), ("j", "tuple", ["i", "2"])]), ("i * j - j", [("i", "range", ["1", "n"]), ("j", "range", ["m"])]),
+        ("x * a ** 3 - a * z ** 2", [("a", "range", ["10", "19", "2"]), ("z", "range", ["3", "7"]), ("x", "range", ["1", "9", "5"])]),
+        ("x * a ** 3 - a * z ** 2", [("a", "range", ["10", "19", "2"]), ("z", "set", ["3", "4", "5", "6", "6", "5"]), ("x", "range", ["1", "3"])]),
+        ("a * a", [("a", "tuple", ["1", "2", "2"])]), ("a * a", [("a", "set", ["1", "2", "2"])]), ("a * a", [("a", "list", ["1", "2", "2"])]),
+        ("a", [("a", "list", ["1", "2", "n"])]), ("a * a", [("a", "tuple", ["n", "n"])]), ("a * a", [("a", "set", ["n", "n", "3"])]),
+        ("a + b + c + d", [("_", "range", ["k", "w"])]), ("i * j", [("i", "range", ["2", "n"]), ("j", "range", ["0", "i", "2"])]),
+        ("i + j", [("i", "range", ["n"]), ("j", "range", ["m"])]), ("i - j", [("i", "range", ["n", "m"]), ("j", "tuple", ["1", "-1"])]),
+    ]
+    for e, g in nested:
+        cases.append({"elt": e, "gens": g, "form": "list"})
+        cases.append({"elt": e, "gens": g, "form": "gen"})
+    for _ in range(30 if tier == "quick" else 1500):
+        deg = rnd.randint(0, 3)
+        e = " + ".join(f"{rnd.randint(-3, 4)} * i ** {d}" for d in range(deg + 1))
+        r = rnd.choice(SM_SYM_RANGES[:6] + [[str(rnd.randint(-3, 3)), str(rnd.randint(-3, 8))],
+                                            [str(rnd.randint(-3, 3)), str(rnd.randint(-3, 8)), str(rnd.choice([1, 2, 3, -1, -2]))]])
+        cases.append({"elt": e, "gens": [("i", "range", r)], "form": rnd.choice(["list", "gen"])})
+    return cases
+
+
+# inputs the pre-repair rule got wrong; they must pass from now on (fixed: F17-13..F17-18)
+SM_WITNESSES = [
+    ("F17-13", "y = sum(range(0, 10, 2))\n"), ("F17-14", "y = sum([i for i in range(0, 9, 3)])\n"),
+    ("F17-14", "y = sum([i + 1 for i in range(10, 0, -1)])\n"), ("F17-14", "n = 7\ny = sum([i for i in range(0, n, 2)])\n"),
+    ("F17-15", "n = 4\ny = sum([i * j for i in range(n) for j in range(i)])\n"),
+    ("F17-15", "y = sum([i for i in range(3) for i in range(2)])\n"),
+    ("F17-16", "I = 3\ny = sum([I * I * i for i in range(3)])\n"), ("F17-16", "S = 2\ny = sum([S * i for i in range(3)])\n"),
+    ("F17-16", "y = sum([i ^ 1 for i in range(3)])\n"), ("F17-16", "n = 5\ny = sum([i // 2 for i in range(n)])\n"),
+    ("F17-16", "a = 7\ny = sum(range(a % 5))\n"), ("F17-17", "y = sum([1 << 2, 3])\n"),
+    ("F17-18", "y = sum(range(5, 3))\n"), ("F17-18", "y = sum([i ** 3 for i in range(5, 2)])\n"),
+]
+
+BOOL_WITNESSES = [
+    ("F17-10", "simplify_boolean_expressions", "y = p0 and True\n"),
+    ("F17-10", "simplify_boolean_expressions", "y = p0 and False and p1\n"),
+    ("F17-10", "simplify_boolean_expressions", "y = x > 3 and p0 and x > 2\n"),
+    ("F17-10", "simplify_boolean_expressions", "y = p0 or not p0\n"),
+    ("F17-10", "simplify_boolean_expressions", "y = 0 or p1 or True\n"),
+    ("F17-11", "simplify_boolean_expressions_symmath", "y = (p0 and p1) or (p0 and not p1)\n"),
+    ("F17-11", "simplify_boolean_expressions_symmath", "y = not (p0 or (not p2 and not p0))\n"),
+    ("F17-11", "simplify_boolean_expressions_symmath", "y = (x > 1 and p1) or (x > 1 and not p1)\n"),
+]
+
+# structural predicates of the known findings of this property (keyed by sig=)
+C17_SIGS = {"sum_reversed_range": lambda item: bool(item.get("reversed_range"))}
+
+_SM_MODS = None
+
+
+def _sm_eval(jobs):
+    """worker: the real rule (text result) on each case + the CPython oracle"""
+    rule = _SM_MODS["symbolic_math"].simplify_math_iterators
+    out = []
+    for case in jobs:
+        source = sm_source(case)
+        try:
+            with common.quiet():
+                new = rule(source)
+        except Exception as e:  # noqa
+            out.append((case, source, None, f"crash {type(e).__name__}: {e}", None, False))
+            continue
+        if new == source:
+            out.append((case, source, new, None, None, False))
+            continue
+        names = sorted({n.id for n in ast.walk(ast.parse(source)) if isinstance(n, ast.Name)}
+                       - {"sum", "range", "y"} - {g[0] for g in case["gens"]})
+        try:
+            pr, env, rev = sm_oracle(case, source, new, names)
+        except Exception as e:  # noqa
+            pr, env, rev = f"oracle crashed: {type(e).__name__}: {e}", None, False
+        out.append((case, source, new, pr, env, rev))
+    return out
+
+
+def check_sums(run, mods, rnd, wd, hist, distinct):
+    """every closed form the real rule emits for a sum over ranges / displays is validated in Coq against the
+    reference semantics comp_sum on a box, proved for all lo <= hi where the telescoping theorem applies, and
+    compared with CPython"""
+    global _SM_MODS
+    _SM_MODS = mods
+    cases = sm_cases(run.tier, rnd)
+    nw = 4 if run.tier == "quick" else 8
+    import multiprocessing
+    size = max(20, len(cases) // (nw * 4))
+    with multiprocessing.get_context("fork").Pool(nw) as pool:
+        parts = pool.map(_sm_eval, [cases[k:k + size] for k in range(0, len(cases), size)])
+    results = [r for part in parts for r in part]
+    failures, known, coq_cases, proofs, semc = [], [], [], [], []
+    for case, source, new, pr, env, rev in results:
+        fired = new is not None and new != source
+        hist["sums:" + ("crash" if new is None else "fired" if fired else "none")] += 1
+        if new is None:
+            failures.append(("simplify_math_iterators", {"source": source, "output": None, "problem": pr}))
+            continue
+        try:
+            gens, elt, vm, fv = sm_terms(case)
+        except ValueError:
+            gens = None
+        if gens is not None and not fv:
+            # reference semantics vs CPython (closed cases): Python's own sum
+            try:
+                v = eval(source[len("y = "):], {"sum": sum, "range": range})
+                if isinstance(v, int):
+                    semc.append((gens, elt, [], (v, 1), source))
+            except Exception:  # noqa
+                pass
+        if not fired:
+            continue
+        distinct.add(source)
+        if pr:
+            item = {"source": source, "output": new, "problem": pr, "valuation": env, "reversed_range": rev}
+            (known if rev else failures).append(("simplify_math_iterators", item))
+        if gens is None:
+            hist["sums:outside-model"] += 1
+            continue
+        try:
+            vm2 = dict(vm)
+            out = ax_text(new[len("y = "):].strip(), vm2)
+            if len(vm2) != len(vm):
+                raise ValueError("the output mentions a new name")
+        except (ValueError, SyntaxError):
+            hist["sums:output-outside-model"] += 1
+            continue
+        box = SM_BOX if len(fv) <= 2 else (-2, 3)
+        coq_cases.append((gens, elt, out, fv, box, source, new, pr, rev))
+        # the telescoping proof: one range with step 1 whose upper bound is a free variable that occurs
+        # nowhere else
+        if len(gens) == 1 and gens[0][0] == "range" and gens[0][4] == ("num", 1) and gens[0][3][0] == "var":
+            nv = gens[0][3][1]
+            if nv in fv and nv not in ax_vars(gens[0][2]) and nv not in ax_vars(elt):
+                proofs.append((gens[0], elt, out, nv, source, new))
+    files, shards = [], []
+    body = ";\n ".join(f"({glist(g, sm_gen_coq)}, {ax_coq(e)}, {ax_coq(o)}, {glist(fv, lambda i: str(i) + '%nat')}, "
+                       f"({gz(box[0])}, {gz(box[1])}))" for (g, e, o, fv, box, *_r) in coq_cases)
+    pcode = wd / "sumcodes.v"
+    pcode.write_text("From Coq Require Import List ZArith QArith.\nImport ListNotations.\nOpen Scope Z_scope.\n"
+                     "Require Import Pyrefact.Base Pyrefact.SumPolyModel.\n"
+                     f"Definition cases : list sum_case := [\n {body}\n].\n"
+                     "Eval vm_compute in (map sum_case_code cases).\n")
+    for k in range(0, len(semc), 400):
+        shard = semc[k:k + 400]
+        body = ";\n ".join(f"({glist(g, sm_gen_coq)}, {ax_coq(e)}, [], ({gz(v[0])}, {v[1]}%positive))" for (g, e, _a, v, _s) in shard)
+        p = wd / f"sumsem_{k // 400}.v"
+        p.write_text("From Coq Require Import List ZArith QArith.\nImport ListNotations.\nOpen Scope Z_scope.\n"
+                     "Require Import Pyrefact.Base Pyrefact.SumPolyModel.\n"
+                     f"Definition cases : list (list gen * aexp * list (nat * Z) * (Z * positive)) := [\n {body}\n].\n"
+                     "Eval vm_compute in (bad_idx comp_sum_case_ok cases).\n")
+        files.append(p); shards.append([("comp_sum", s[4], s[3]) for s in shard])
+    pfiles = []
+    PSH = 12
+    for k in range(0, len(proofs), PSH):
+        goals = []
+        for j, (g, e, o, nv, _s, _n) in enumerate(proofs[k:k + PSH], start=k):
+            x, lo = g[1], ax_coq(g[2])
+            goals.append(
+                f"Goal True.\n  tryif (assert (forall (rho : nat -> Z) (a : Z), zeval rho {lo} = Some a -> (a <= rho {nv}%nat)%Z ->\n"
+                f"    exists v, comp_sum [GRange {x} {lo} (AVar {nv}) (ANum 1)] rho {ax_coq(e)} = Some v /\\ (v == aeval rho {ax_coq(o)})%Q) by\n"
+                f"   (intros rho a Ha H; cbn [zeval option_map] in Ha; injection Ha as <-;\n"
+                f"    eapply (closed_form_valid {x} {lo} (AVar {nv}) _ _ rho _ (rho {nv}%nat) (fun k => aeval (upd rho {nv} k) {ax_coq(o)}));\n"
+                f"    [ reflexivity | reflexivity | exact H\n"
+                f"    | intros k; cbn [aeval qpow upd Nat.eqb]; rewrite ?inject_Z_plus, ?inject_Z_mult, ?inject_Z_opp; field\n"
+                f"    | cbn [aeval qpow upd Nat.eqb]; rewrite ?inject_Z_plus, ?inject_Z_mult, ?inject_Z_opp; field\n"
+                f"    | cbv beta; rewrite (upd_same rho {nv}); reflexivity ]))\n"
+                f"  then idtac \"SUMPROOF {j} ACCEPT\" else idtac \"SUMPROOF {j} REJECT\".\n  exact I.\nQed.\n")
+        p = wd / f"sumproof_{k // PSH}.v"
+        p.write_text("From Coq Require Import List ZArith QArith Field.\nImport ListNotations.\nOpen Scope Z_scope.\n"
+                     "Require Import Pyrefact.Base Pyrefact.SumPolyModel Pyrefact.SumPolyProofs.\n" + "\n".join(goals))
+        pfiles.append(p)
+    stats = {"cases": len(cases), "fired": sum(1 for r in results if r[2] is not None and r[2] != r[1]),
+             "closed_forms_checked_in_coq": len(coq_cases), "comp_sum_vs_cpython": len(semc),
+             "telescoping_instances": len(proofs),
+             "samples": [sm_source(cases[5]), sm_source(cases[-70])]}
+    return files, shards, failures, known, stats, (pcode, coq_cases, pfiles, proofs)
+
+
 def program_property_fails(prog: str, new: str) -> str | None:
     """f(n, m, p, y) before/after format_code: same value (same order) for every n in the box"""
     if new == prog:
@@ -756,26 +1451,46 @@ def check(run: common.Run):
     # ---- bound table / BoolOp branch
     cases, n_pairs = bound_cases(run.tier, rnd)
     items, distinct = [], set()
-    for isand, vs in cases:
-        try:
-            source, res = impl_bound(mods, isand, vs)
-        except Exception as e:  # noqa
-            res, source = ("crash", type(e).__name__), "y = " + o_text(("bool", isand, vs), top=True)
-        items.append((isand, vs, res, source))
-        hist["bound:" + res[0]] += 1
-        if res[0] != "none":
-            distinct.add(source)
+    for j, (isand, vs) in enumerate(cases):
+        # formulas with a bare name among the operands: both contexts (the value-context guard decides);
+        # comparison-only formulas are boolean valued, the context cannot matter: alternate
+        for ctx in ((False, True) if any(o_has_var(v) for v in vs) else (j % 2 == 1,)):
+            try:
+                source, res = impl_bound(mods, isand, vs, ctx)
+            except Exception as e:  # noqa
+                res, source = ("crash", type(e).__name__), bound_source(isand, vs, ctx)
+            items.append((isand, vs, res, source, ctx))
+            hist["bound:" + res[0] + (":truth-ctx" if ctx else ":value-ctx")] += 1
+            if res[0] != "none":
+                distinct.add(source)
     files, shards = [], []
     SH = 500
     for k in range(0, len(items), SH):
         shard = items[k:k + SH]
-        body = ";\n ".join(f"(mkBCase {gbool(i)} {glist(vs, o_coq)} {r_coq(r)})" for (i, vs, r, _) in shard)
+        body = ";\n ".join(f"(mkBCase {gbool(c)} {gbool(i)} {glist(vs, o_coq)} {r_coq(r)})" for (i, vs, r, _, c) in shard)
         p = wd / f"bound_{k // SH}.v"
         p.write_text("From Coq Require Import List ZArith.\nImport ListNotations.\nOpen Scope Z_scope.\n"
                      "Require Import Pyrefact.Base Pyrefact.BoundModel.\n"
                      f"Definition cases : list bound_case := [\n {body}\n].\n"
                      "Eval vm_compute in (bad_idx bound_case_ok cases).\n")
         files.append(p); shards.append(shard)
+
+    # ---- reference semantics: BoundModel.opval (the VALUE of and/or/not/comparisons) vs CPython
+    ov = []
+    for (isand, vs, res, source, ctx) in items[3::7][:700] + [it for it in items if any(o_has_var(v) for v in it[1])][:300]:
+        code = compile(o_text(("bool", isand, vs), top=True), "<o>", "eval")
+        for xs, pv in (((1, 0, 0), (0, 3, 0)), ((2, 3, 0), (3, 0, 3)), ((0, -1, 0), (True, 3, 0))):
+            v = eval(code, {"__builtins__": {}}, {"x": xs[0], "y": xs[1], "z": xs[2], "p0": pv[0], "p1": pv[1], "p2": pv[2]})
+            ov.append((("bool", isand, vs), xs, pv, v))
+    for k in range(0, len(ov), 1000):
+        shard = ov[k:k + 1000]
+        body = ";\n ".join(f"({o_coq(o)}, {glist(xs, gz)}, {glist(pv, gval)}, {gval(v)})" for (o, xs, pv, v) in shard)
+        p = wd / f"opval_{k // 1000}.v"
+        p.write_text("From Coq Require Import List ZArith.\nImport ListNotations.\nOpen Scope Z_scope.\n"
+                     "Require Import Pyrefact.Base Pyrefact.BoundModel.\n"
+                     f"Definition cases : list (operand * list Z * list val * val) := [\n {body}\n].\n"
+                     "Eval vm_compute in (bad_idx opval_case_ok cases).\n")
+        files.append(p); shards.append([("opval", o_text(o, top=True), xs, pv, repr(v)) for (o, xs, pv, v) in shard])
 
     # ---- negate
     ncases = negate_cases(run.tier, rnd)
@@ -817,13 +1532,13 @@ def check(run: common.Run):
 
     # ---- sum(range) closed forms
     sums = sum_cases(mods)
-    body = ";\n ".join(f"({gz(s['a'])}, {gz(s['b'])}, {gz(int(2 * s['value']))})" for s in sums
-                       if isinstance(s["value"], (int, float)) and float(2 * s["value"]).is_integer())
+    body = ";\n ".join(f"({gbool(s['form'] in ('two', 'one'))}, {gz(s['a'])}, {gz(s['b'])}, {gz(int(2 * s['value']))})"
+                       for s in sums if isinstance(s["value"], (int, float)) and float(2 * s["value"]).is_integer())
     p = wd / "sums.v"
     p.write_text("From Coq Require Import List ZArith.\nImport ListNotations.\nOpen Scope Z_scope.\n"
                  "Require Import Pyrefact.Base Pyrefact.Ops Pyrefact.BoundModel Pyrefact.BoolRwModel.\n"
-                 f"Definition cases : list (Z * Z * Z) := [\n {body}\n].\n"
-                 "Eval vm_compute in (bad_idx (fun c => let '(a, b, v) := c in sum_range_closed2 a b =? v) cases).\n")
+                 f"Definition cases : list (bool * Z * Z * Z) := [\n {body}\n].\n"
+                 "Eval vm_compute in (bad_idx (fun c => let '(lit, a, b, v) := c in sum_range_out2 lit a b =? v) cases).\n")
     files.append(p)
     shards.append([("sum", s) for s in sums if isinstance(s["value"], (int, float)) and float(2 * s["value"]).is_integer()])
     sum_unrepresentable = [s for s in sums if not (isinstance(s["value"], (int, float)) and float(2 * s["value"]).is_integer())]
@@ -834,8 +1549,45 @@ def check(run: common.Run):
     rstats["python_wall_s"] = round(time.time() - t_range, 1)
     files += rfiles; shards += rshards
 
-    results = common.run_case_files(files)
+    # ---- simplify_boolean_expressions_symmath (sympy): translation validation
+    t_sym = time.time()
+    sfiles, sshards, sfailures, sstats = check_symmath(run, mods, rnd, wd, hist, distinct)
+    sstats["python_wall_s"] = round(time.time() - t_sym, 1)
+    files += sfiles; shards += sshards
+
+    # ---- simplify_math_iterators: sums over ranges / displays computed by sympy
+    t_sm = time.time()
+    mfiles, mshards, mfailures, mknown, mstats, (pcode, coq_cases, pfiles, proofs) = check_sums(run, mods, rnd, wd, hist, distinct)
+    mstats["python_wall_s"] = round(time.time() - t_sm, 1)
+    files += mfiles; shards += mshards
+
+    results = common.run_case_files(files + [pcode] + pfiles)
     disagreements = []
+    # verdict codes of the emitted closed forms (0 equal on the box, 1 differs only where a range is reversed,
+    # 2 differs elsewhere, 3 outside the model)
+    rc, out = results[pcode]
+    codes = common.parse_nat_list(out) if rc == 0 else None
+    if codes is None or len(codes) != len(coq_cases):
+        disagreements.append(("eval-failed", pcode.name, out[-1500:]))
+    else:
+        for code, (g, e, o, fv, box, source, new, pr, rev) in zip(codes, coq_cases):
+            hist[f"sums:coq-code-{code}"] += 1
+            if (code == 2 and not (pr and not rev)) or (code == 1 and not pr) or (code == 0 and pr):
+                disagreements.append(("sum-case", f"Coq verdict {code}", {"source": source, "output": new,
+                                                                         "cpython": pr, "reversed": rev}))
+    accepted, rejected = 0, []
+    for p in pfiles:
+        rc, out = results[p]
+        if rc != 0:
+            disagreements.append(("eval-failed", p.name, out[-1500:]))
+            continue
+        for j, verdict in re.findall(r"SUMPROOF (\d+) (ACCEPT|REJECT)", out):
+            if verdict == "ACCEPT":
+                accepted += 1
+            else:
+                rejected.append(proofs[int(j)][4].strip() + " -> " + proofs[int(j)][5].strip())
+    mstats["telescoping_proved_for_all_lo_le_hi"] = accepted
+    mstats["telescoping_not_proved"] = rejected[:10]
     for p, shard in zip(files, shards):
         rc, out = results[p]
         idx = common.parse_nat_list(out) if rc == 0 else None
@@ -849,7 +1601,7 @@ def check(run: common.Run):
     rule = mods["symbolic_math"].simplify_boolean_expressions
     failures = []
     seen_src = set()
-    for (isand, vs, res, source) in items:
+    for (isand, vs, res, source, _ctx) in items:
         if source in seen_src or res[0] in ("none",):
             continue
         seen_src.add(source)
@@ -865,8 +1617,27 @@ def check(run: common.Run):
             pr = redundant_property_fails(mods, src)
             if pr:
                 failures.append(("remove_redundant_boolop_values", {"source": src, "problem": pr}))
+    # witnesses of the repaired defects (fixed: F17-10, F17-11, F17-13..19): they must pass from now on
+    for fid, rname, w in BOOL_WITNESSES:
+        pf = property_fails(mods, w, getattr(mods["symbolic_math"], rname))
+        if pf:
+            pf["problem"] = f"[{fid} witness] " + pf["problem"]
+            failures.append((rname, pf))
+    for fid, w in SM_WITNESSES:
+        pr = None
+        try:
+            with common.quiet():
+                new = mods["symbolic_math"].simplify_math_iterators(w)
+            e1, e2 = {}, {}
+            exec(w, e1); exec(new, e2)
+            if e1["y"] != e2["y"]:
+                pr = f"y = {e1['y']!r} became {e2['y']!r}"
+        except Exception as e:  # noqa
+            pr, new = f"{type(e).__name__}: {e}", None
+        if pr:
+            failures.append(("simplify_math_iterators", {"source": w, "output": new, "problem": f"[{fid} witness] {pr}"}))
     sum_viol = [s for s in sums if s["value"] != s["python"]]
-    failures += rfailures
+    failures += rfailures + sfailures + mfailures
 
     # ---- known findings
     from . import findings
@@ -884,6 +1655,19 @@ def check(run: common.Run):
                                         f"{hits[0]['output'].strip()} = {hits[0]['value']!r}, python {hits[0]['python']}]")
             else:
                 common.log(f"note: known finding {f.id} no longer reproduces")
+
+    # sums computed by sympy: a failing valuation is suppressed only when a range is reversed there (sig)
+    for f in kf:
+        if f.kind == "finding" and f.fields.get("site") == "symbolic_math._integrate_over":
+            pred = C17_SIGS.get(f.fields.get("sig", ""))
+            hits = [it for _, it in mknown if pred and pred(it)]
+            mknown = [(s_, it) for s_, it in mknown if not (pred and pred(it))]
+            if hits:
+                run.known_finding(f.id, f"{f.text} [{len(hits)} instances, e.g. {hits[0]['source'].strip()} -> "
+                                        f"{hits[0]['output'].strip()}: {hits[0]['problem']} at {hits[0]['valuation']}]")
+            else:
+                common.log(f"note: known finding {f.id} no longer reproduces")
+    failures += mknown          # not covered by a listed finding
 
     # ---- verdicts
     for site, pf in failures[:5]:
@@ -906,7 +1690,7 @@ def check(run: common.Run):
 
     run.coverage.update(
         evaluations=len(items) + len(nitems) + len(ritems) + len(sums) + rstats["cases"] + rstats["zrange_cases"]
-        + rstats["sem_cases"],
+        + rstats["sem_cases"] + len(ov) + sstats["cases"] + sstats["veval_cases"] + mstats["cases"] + mstats["comp_sum_vs_cpython"],
         distinct_nontrivial=len(distinct),
         rule=("bound table: ALL ordered pairs of comparisons of x with constants {0,1,2}, 6 operators, both "
               "literal sides, x and/or (exhaustive); triples (sampled in quick, exhaustive in thorough); nested "
@@ -919,13 +1703,26 @@ def check(run: common.Run):
               "thorough; in quick the 3-literal-argument forms are strided 1-in-3); pairs of filters under "
               "`and` / two `if`s in list/set/generator form (strided shard; thorough: all pairs for the "
               "2-argument forms); seeded random 1-3 `if`s of nested and-trees. Non-trivial = the rule "
-              "yields a rewrite; distinct by source text."),
+              "yields a rewrite; distinct by source text. symmath (sympy): ALL binary and/or trees with <= 3 leaves "
+              "(not on leaves) over three pools of 3 atoms (names / comparisons of x / mixed with an opaque call), 4 leaves "
+              "strided (quick) or all (thorough), seeded random n-ary formulas over <= 5 atoms in 13 embeddings; every "
+              "(node, replacement) the rule yields is one validated pair (distinct by text + context). sums (sympy): 11 "
+              "polynomial element expressions x literal ranges with bounds in [-2,5] (1-3 arguments, steps 2,3,-1,-2), 11 "
+              "symbolic range forms, nested / dependent generators, tuple/list/set displays, seeded random polynomials; "
+              "free variables range over [-3,6]."),
         samples=[items[0][3], items[n_pairs + 3][3], items[-1][3], c_text(nitems[-1][0]), ritems[-1][3],
-                 sums[5]["source"]] + rstats.pop("samples"),
+                 sums[5]["source"]] + rstats.pop("samples") + sstats.pop("samples") + mstats.pop("samples"),
         exhaustive=False, exhaustive_pairs=n_pairs, histogram=dict(hist),
         correspondence_disagreements=len(disagreements), property_oracle_failures=len(failures),
-        sum_cases_outside_model=len(sum_unrepresentable), constrained_range=rstats,
-        unmodelled=["symbolic_math.simplify_boolean_expressions_symmath (sympy)", "symbolic_math._integrate_over (sympy)",
+        sum_cases_outside_model=len(sum_unrepresentable), constrained_range=rstats, symmath=sstats, sums=mstats,
+        unmodelled=["sympy itself (simplify_boolean_expressions_symmath, _integrate_over, _sum_range, _sum_constants): not "
+                    "modelled -- every output the real rules produce on the generated inputs is validated per instance by "
+                    "the verified checkers (BoolEquivModel.equiv_dec_arith / vequiv_dec; SumPolyModel.sum_case_code on a box "
+                    "+ a `field` proof through T17.13 for single step-1 ranges with a fresh upper bound); nested / stepped / "
+                    "display generators and bounds that are not a fresh variable are validated ON THE BOX ONLY",
+                    "symbolic_math._truth_tested_nodes: re-implemented independently by the harness (truth_tested) which "
+                    "decides the verdict level (value where the value is observable, truth elsewhere)",
+                    "truth-context deletion of operands with side effects (if f() and 0: -> if False:) is by design of the tool",
                     "simplify_constrained_range: the template walk that selects comprehensions (single generator, "
                     "Name target, range call without keywords) and the rewrite machinery that applies the yields "
                     "(C10) are exercised by the correspondence / text oracle, not modelled"],
@@ -935,10 +1732,21 @@ def check(run: common.Run):
             "integer semantics cmp_sem / cmpop_sem are definitions (validated by the before/after evaluation sweep)",
             "RangeModel.zrange / comp_sem (meaning of list(range(..)) and of a filtered comprehension) are "
             "definitions, validated against CPython on every run (zrange_case_ok, sem_case_ok)",
-            "range case <-> source text printer (rc_source) and the reader of the rule's yields (impl_range)"],
+            "range case <-> source text printer (rc_source) and the reader of the rule's yields (impl_range)",
+            "BoundModel.opval, BoolEquivModel.veval (the VALUE of and/or/not/comparisons over Z + bool) and "
+            "SumPolyModel.comp_sum (sum of a comprehension over ranges / displays, exact over Q) are definitions, "
+            "validated against CPython on every run (opval_case_ok, veval_case_ok, comp_sum_case_ok)",
+            "formula / arithmetic term <-> Python text printers and AST readers (sf_text, sf_of_ast, ax_of_ast, sm_source)",
+            "generated instance files: the kernel-checked proof terms produced by the `field` tactic over Q"],
     )
-    run.assumptions += ["float constants and non-integer variables are outside every theorem",
-                        "sympy-based rules are not modelled (listed under unmodelled)",
+    run.assumptions += ["float constants and non-integer variables are outside every theorem; the closed forms emitted for "
+                        "sums use `/`: they are compared exactly (Q / Fraction), Python evaluates them in floating point "
+                        "(int -> float type change, rounding)",
+                        "verdict levels: the property demands the same VALUE; the truth value suffices only where the "
+                        "value of the expression cannot be observed (tests, operands of not, unused statements) -- the "
+                        "repaired rules fire in a value context only on boolean valued expressions",
+                        "sympy-based rules are not modelled (listed under unmodelled); operands are pure and total "
+                        "(sympy reorders and merges operands)",
                         "constrained range: `range` is the builtin, non-literal bounds evaluate to ints without side "
                         "effects, the remaining filters are total and side-effect free (folding changes how often "
                         "they run -- the repository's own examples do that), conditions of several `if`s / `and` "
@@ -963,6 +1771,41 @@ def replay(path: str) -> int:
             print("yields:", impl_range(mods, data["source"]))
         except Exception as e:  # noqa
             print("yields: crash", type(e).__name__, e)
+    if data.get("kind") == "property-oracle" and data.get("site") in ("simplify_boolean_expressions_symmath",
+                                                                       "simplify_math_iterators") and data.get("source"):
+        rule = getattr(mods["symbolic_math"], data["site"])
+        with common.quiet():
+            try:
+                new = rule(data["source"])
+            except Exception as e:  # noqa
+                new = f"<crash {type(e).__name__}: {e}>"
+        print("now:", repr(new))
+        if data["site"] == "simplify_boolean_expressions_symmath" and data.get("input"):
+            root = mods["core"].parse(data["source"])
+            tt = truth_tested(root)
+            with common.quiet():
+                ys = [(it[0], it[1]) for it in rule._fix_func(data["source"])]
+            for node, repl in ys:
+                try:
+                    fi, fo = sf_of_ast(node), sf_of_ast(repl)
+                    print("yield:", sf_text(fi), "=>", sf_text(fo), "| truth context:", id(node) in tt, "|",
+                          sym_pair_fails(fi, fo, id(node) in tt) or "same value / truth value on the box")
+                except ValueError as e:
+                    print("yield outside the formula language:", e)
+        if data["site"] == "simplify_math_iterators" and new.startswith("y = ") and data["source"].startswith("y = "):
+            names = sorted({n.id for n in ast.walk(ast.parse(data["source"])) if isinstance(n, ast.Name)} - {"sum", "range", "y"})
+            for vals in itertools.product(range(-3, 7), repeat=min(len(names), 2)):
+                env = dict(zip(names, vals))
+                try:
+                    b = eval(data["source"][4:], {"sum": sum, "range": range}, dict(env))
+                    a = sm_exact(new[4:].strip(), env)
+                except Exception as e:  # noqa
+                    continue
+                if a != b:
+                    print("differs at", env, ":", b, "vs", a)
+                    break
+            else:
+                print("same value on the box")
     if data.get("kind") == "property-oracle" and data.get("site") == "main.format_code":
         with common.quiet():
             new = mods["main"].format_code(data["source"], preserve=frozenset({"f"}))
